@@ -26,6 +26,8 @@ const CLASSES: &[&str] = &[
     "v4-presigned/empty-signature", "v2-header/empty-signature", "v2-presigned/empty-signature",
     // validly signed for another service / region of the credential scope: still somebody whose request the hook must see
     "v4-header/scope-service-sts", "v4-presigned/scope-service-sts", "v4-header/scope-other-region",
+    // an invalid seed signature on a request that announces a chunk-signed body (on every operation, also those that never read a body)
+    "v4-header/streaming-payload-declared/bad-signature",
 ];
 const HOOKS: &[&str] = &["none", "allow", "deny", "deny-op", "deny-typed"];
 const ROUTES: &[&str] = &["none", "matching", "non-matching"];
@@ -77,8 +79,13 @@ fn make(class: &str, base: &RawRequest) -> RawRequest {
     match class {
         "anonymous" => {}
         "v4-header" | "v4-header/bad-signature" | "v4-header/unknown-key" | "duplicated-authorization" | "v4-header/unsigned-payload" | "v4-header/truncated-signature" | "v4-header/empty-signature"
-        | "v4-header/scope-service-sts" | "v4-header/scope-other-region" => {
+        | "v4-header/scope-service-sts" | "v4-header/scope-other-region" | "v4-header/streaming-payload-declared/bad-signature" => {
             let mut p = params();
+            // a request that announces a chunk-signed body (whatever its method): its seed signature is checked like any other
+            let streaming = class == "v4-header/streaming-payload-declared/bad-signature";
+            if streaming {
+                r.headers.push(("x-amz-decoded-content-length".into(), r.body.len().to_string().into_bytes()));
+            }
             if class == "v4-header/scope-service-sts" {
                 p.service = "sts".into();
             }
@@ -88,9 +95,9 @@ fn make(class: &str, base: &RawRequest) -> RawRequest {
             if class == "v4-header/unknown-key" {
                 p.access_key = "AKIDNOBODYKNOWSME001".into();
             }
-            let payload = if class == "v4-header/unsigned-payload" { UNSIGNED.to_owned() } else { digest };
+            let payload = if class == "v4-header/unsigned-payload" { UNSIGNED.to_owned() } else if streaming { "STREAMING-AWS4-HMAC-SHA256-PAYLOAD".to_owned() } else { digest };
             v4_sign_header(&mut r, &p, &payload, &[]);
-            if class == "v4-header/bad-signature" {
+            if class == "v4-header/bad-signature" || streaming {
                 if let Some((_, v)) = r.headers.iter_mut().find(|(k, _)| k == "authorization") {
                     *v = flip_last_sig_char(&String::from_utf8_lossy(v)).into_bytes();
                 }
